@@ -170,6 +170,8 @@ var funcSpecs = []funcSpec{
 	{rel: "", name: "wrapWithLabels", opaque: map[string]string{"age.Recipient": "ρ", "age.RecipientWithLabels": "ρ"}},
 	{rel: "internal/stream", name: "NewReader", abstract: []string{"chacha20poly1305.New"}, opaque: streamOpaque},
 	{rel: "internal/stream", name: "NewWriter", abstract: []string{"chacha20poly1305.New"}, opaque: streamOpaque},
+	{rel: "plugin", name: "openClientConnection", abstract: []string{"execabs.Command", "filepath.Join"},
+		opaque: map[string]string{"plugin.clientConnection": "χ", "exec.Cmd": "χ", "io.ReadCloser": "κ"}, stopAt: "err != nil", stopRet: []string{"cmd", "err"}},
 	{rel: "", name: "ParseRecipients", abstract: []string{"age.ParseX25519Recipient"}, opaque: map[string]string{"Recipient": "κ", "X25519Recipient": "κ"}, errInts: true},
 }
 
@@ -1329,8 +1331,21 @@ func (c *fctx) call(x *ast.CallExpr) string {
 			if c.isAbstract(o) {
 				c.useAbstract(o)
 				var parts []string
-				for _, a := range x.Args {
+				osig := o.Type().(*types.Signature)
+				for i, a := range x.Args {
+					if osig.Variadic() && i >= osig.Params().Len()-1 && !x.Ellipsis.IsValid() {
+						// the variadic parameter is the slice of the remaining arguments
+						var rest []string
+						for _, b := range x.Args[i:] {
+							rest = append(rest, c.expr(b))
+						}
+						parts = append(parts, "(["+strings.Join(rest, ", ")+"] : "+c.leanType(x, osig.Params().At(osig.Params().Len()-1).Type())+")")
+						break
+					}
 					parts = append(parts, c.expr(a))
+				}
+				if osig.Variadic() && len(x.Args) < osig.Params().Len() {
+					parts = append(parts, "([] : "+c.leanType(x, osig.Params().At(osig.Params().Len()-1).Type())+")")
 				}
 				return "(← " + absName(o) + " " + strings.Join(parts, " ") + ")"
 			}
@@ -1829,9 +1844,6 @@ func (t *ftr) global(c *fctx, at ast.Node, v *types.Var) string {
 		return an
 	}
 	init := varInit(p, v)
-	if init == nil {
-		c.fail(at, "package-level variable %s has no initialiser", v.Name())
-	}
 	// it must never be assigned anywhere in its package
 	for _, af := range p.Files {
 		ast.Inspect(af, func(n ast.Node) bool {
@@ -1865,6 +1877,16 @@ func (t *ftr) global(c *fctx, at ast.Node, v *types.Var) string {
 		})
 	}
 	name := leanIdent(p.Name) + "_" + v.Name()
+	if init == nil {
+		// declared without a value and (checked above) never assigned outside test files: it is its zero value
+		lt, ok := leanTypeOf(v.Type())
+		if !ok {
+			c.fail(at, "type of package-level variable %s", v.Name())
+		}
+		fmt.Fprintf(&t.out, "/-- package-level `var %s` of %s: declared without a value and never assigned in non-test code -/\ndef %s : %s := %s\n\n", v.Name(), p.Path, name, lt, c.zero(at, v.Type()))
+		t.globs[v] = name
+		return name
+	}
 	if call, ok := ast.Unparen(init).(*ast.CallExpr); ok {
 		if f, ok := p.callee(call).(*types.Func); ok && f.Pkg() != nil && ((f.Pkg().Path() == "errors" && f.Name() == "New") || (f.Pkg().Path() == "fmt" && f.Name() == "Errorf")) {
 			// a sentinel error value: identified by the variable that holds it
